@@ -111,6 +111,9 @@ const verdictURL, verdictSrcURL, verdictHost = "http://h.test/", "http://src.tes
 func verdictSubst(t string) string {
 	t = strings.ReplaceAll(t, "||src.test^", "||user.github.io/dir/")
 	t = strings.ReplaceAll(t, "src.test", "github.io")
+	// (the pool's second spelling of the same pattern, "||h.test/*", goes the same way: it is the same rule)
+	t = strings.ReplaceAll(t, "||h.test/*/*", "||h.t*/*")
+	t = strings.ReplaceAll(t, "||h.test/*", "||h.t*")
 	return strings.ReplaceAll(t, "||h.test^", "||h.t*")
 }
 
